@@ -114,6 +114,47 @@ Theorem c19_order_independent_without_distinct_points_refuted :
 Proof. exact collide_witness. Qed.
 Print Assumptions c19_order_independent_without_distinct_points_refuted.
 
+(* ---- with fixes/C19-ketama-tiebreak.patch (Less breaks ties on the label, [lle] = string order of
+   labels, any partial order here) the premise disappears: order independence and removal hold for
+   EVERY point function, colliding points included ---- *)
+Theorem c19_order_independent_tiebreak : forall (label : Type) (pts : label -> list N)
+    (lle : label -> label -> Prop),
+  (forall a, lle a a) -> (forall a b c, lle a b -> lle b c -> lle a c) ->
+  (forall a b, lle a b -> lle b a -> a = b) ->
+  forall (ls ls' : list label) (r r' : list (@entry label)),
+  (forall l, In l ls <-> In l ls') ->
+  is_ring_tb pts lle ls r -> is_ring_tb pts lle ls' r' ->
+  forall h, lookup r h = lookup r' h.
+Proof. exact (@lookup_set_independent_tb). Qed.
+Print Assumptions c19_order_independent_tiebreak.
+
+Theorem c19_removal_tiebreak : forall (label : Type) (pts : label -> list N)
+    (lle : label -> label -> Prop),
+  (forall a, lle a a) -> (forall a b c, lle a b -> lle b c -> lle a c) ->
+  (forall a b, lle a b -> lle b a -> a = b) ->
+  forall (ls ls' : list label) (x : label) (r r' : list (@entry label)),
+  (forall l, In l ls' <-> In l ls /\ l <> x) ->
+  is_ring_tb pts lle ls r -> is_ring_tb pts lle ls' r' ->
+  forall h, lookup r h <> Some x -> lookup r' h = lookup r h.
+Proof. exact (@lookup_removal_tb). Qed.
+Print Assumptions c19_removal_tiebreak.
+
+(* non-vacuity: the colliding point function of the refutation has a tie-broken ring, the same for
+   both listing orders *)
+Example c19_nonvacuous_tiebreak :
+  is_ring_tb pts_collide_w N.le [0; 1] [(5, 0); (5, 1); (7, 1); (9, 0)] /\
+  is_ring_tb pts_collide_w N.le [1; 0] [(5, 0); (5, 1); (7, 1); (9, 0)] /\
+  ~ is_ring_tb pts_collide_w N.le [0; 1] [(5, 1); (5, 0); (7, 1); (9, 0)].
+Proof.
+  repeat split.
+  - vm_compute. perm_concrete.
+  - repeat constructor; unfold le_entry; cbn [fst snd]; lia.
+  - vm_compute. perm_concrete.
+  - repeat constructor; unfold le_entry; cbn [fst snd]; lia.
+  - intros [_ Hs]. inversion Hs as [|? ? _ Hhd]; subst. inversion Hhd as [|? ? Hle]; subst.
+    unfold le_entry in Hle; cbn [fst snd] in Hle. lia.
+Qed.
+
 (* ---- non-vacuity: three nodes with two points each, all distinct ---- *)
 Definition pts3 (l : N) : list N :=
   match l with 0 => [10; 50] | 1 => [30; 70] | 2 => [20; 60] | _ => [] end.
